@@ -1,8 +1,10 @@
 package main
 
 import (
+	"bytes"
 	"encoding/hex"
 	"fmt"
+	"io"
 	"math/big"
 	"strings"
 )
@@ -152,3 +154,24 @@ func (s Sx) IsSym(name string) bool { return s.K == 1 && string(s.B) == name }
 func (s Sx) U64() uint64            { return s.Z.Uint64() }
 func (s Sx) I64() int64             { return s.Z.Int64() }
 func (s Sx) Int() int               { return int(s.Z.Int64()) }
+
+// ownedSrc hands a parser its input the way a caller that recycles its transport buffer does: through a
+// *bytes.Reader or a *bytes.Buffer over a private copy. spoil() overwrites that copy, spare capacity
+// included (the caller reuses its buffer); whatever was parsed must still be what was read.
+func ownedSrc(data []byte) (io.Reader, func()) {
+	own := append(make([]byte, 0, len(data)+16), data...)
+	spoil := func() {
+		full := own[:cap(own)]
+		for i := range full {
+			full[i] ^= 0xff
+		}
+	}
+	h := len(data)
+	for i := 0; i < len(data) && i < 64; i++ {
+		h = h*31 + int(data[i])
+	}
+	if h%2 == 0 {
+		return bytes.NewReader(own), spoil
+	}
+	return bytes.NewBuffer(own), spoil
+}
